@@ -109,6 +109,13 @@ def r3_primitives(idx, r):
     for e in fl.normal_exits():
         for fact, what in (("unparent", "obj.parent = None"), ("detach", "detached copy of the locator"), ("unlisted", "removal from the child list")):
             r.require(e.state.get(fact, (0, 0)) == (1, 1), f"Composite.remove:{fact}", f, msg=f"a normal path through remove() lacks: {what}")
+    # a non-child is refused BEFORE the object is touched: the list removal (which raises ValueError for a non-member) or an explicit
+    # membership test comes first
+    for fact_node in [n for n in walk_local(f.node) if ev2(n) and ev2(n)[0] in ("unparent", "detach")]:
+        stb = fl.state_before(fact_node) or {}
+        guarded = stb.get("unlisted", (0, 0))[0] >= 1 or any((f"{obj} not in" in norm(t) and not p) or (f"{obj} in" in norm(t) and " not in" not in norm(t) and p) for t, p in path_conditions(f.node, fact_node))
+        r.require(guarded, f"Composite.remove:{ev2(fact_node)[0]}:only-for-a-child", f, node=fact_node,
+                  msg="remove(obj) cuts obj loose (parent, locator) before it finds out that obj is not a child of this composite: the call raises, but obj has lost its real parent, which still lists it")
     ra = c.methods.get("removeAll")
     loop = next((n for n in ra.node.body if isinstance(n, ast.For)), None)
     it = norm(loop.iter) if loop is not None else ""
